@@ -28,6 +28,7 @@ func init() {
 
 // repFamilies: representation families a declared class admits.
 var repFamilies = map[string][]string{
+	"any":           {},
 	"Std::Float":    {"Float"},
 	"Std::Int":      {"SmallInt", "BigInt", "Ref", "Int"},
 	"Std::Char":     {"Char"},
@@ -76,6 +77,13 @@ func runNativeArgRep(c *Ctx) {
 	nt := c.parseNatives()
 	hinfo := h.info
 	classOf := func(e ast.Expr) string {
+		// Any{}: every representation is possible, so every unchecked
+		// representation-assuming accessor is wrong for some argument
+		if cl, ok := ast.Unparen(e).(*ast.CompositeLit); ok && len(cl.Elts) == 0 {
+			if NamedOf(hinfo.TypeOf(cl)) == "types.Any" {
+				return "any"
+			}
+		}
 		call, ok := ast.Unparen(e).(*ast.CallExpr)
 		if !ok || len(call.Args) < 1 {
 			return ""
@@ -89,6 +97,21 @@ func runNativeArgRep(c *Ctx) {
 	var ms []*hdrMethod
 	for _, m := range h.Methods {
 		ms = append(ms, m)
+	}
+	sort.SliceStable(ms, func(i, j int) bool { return ms[i].ID() < ms[j].ID() })
+	// natives that override a method every value inherits (==, =~, ...): the
+	// signature they must honour is the one declared on Std::Value
+	for _, nd := range nt.Defs {
+		if nd.Func == nil || nd.Singleton || h.ByID[nd.ID()] != nil || !strings.HasPrefix(nd.NS, "Std") {
+			continue
+		}
+		if base := h.ByID["Std::Value#"+nd.Name]; base != nil && len(base.Params) == nd.Params {
+			cp := *base
+			cp.NS = nd.NS
+			cp.Native = true
+			cp.Abstract = false
+			ms = append(ms, &cp)
+		}
 	}
 	sort.SliceStable(ms, func(i, j int) bool { return ms[i].ID() < ms[j].ID() })
 	seen := map[string]bool{}
